@@ -5,6 +5,7 @@ Ops:
                -> ld, rd (nbdime.diff), decisions (decide_merge_with_diff), merged (apply_decisions), oracles
   merge_nb     base, local, remote, [args {merge_strategy, input_strategy, output_strategy, ignore_transients}]
                -> strategies (the table notebook_merge_strategies built), ld, rd (diff_notebooks), decisions, merged, oracles
+  merge_diffs  base, ld, rd, [strategies]  -> ld, rd (as given), decisions, merged, oracles
   decide       base, ld, rd, [strategies]  -> decisions
   apply        base, decisions             -> merged
 Each stage that raises is reported as {"err": class, "msg": ...} under that stage's key; later stages are skipped.
@@ -164,6 +165,15 @@ def run_task(t):
             res['diff'] = exc_info(e); return res
         res['ld'] = clean(ld); res['rd'] = clean(rd)
         stage_merge(res, base, ld, rd, st, True)
+        res['oracles'] = REC.dump()
+        return res
+    if op == 'merge_diffs':
+        # the two diffs are GIVEN (by-construction diffs of generic JSON whose list items are patched: nbdime.diff never
+        # patches an item of a generic list, it removes and re-adds it); decide + apply as for merge_json
+        base = copy.deepcopy(t['base'])
+        ld = to_diffentry_dicts(copy.deepcopy(t['ld'])); rd = to_diffentry_dicts(copy.deepcopy(t['rd']))
+        res['ld'] = clean(ld); res['rd'] = clean(rd)
+        stage_merge(res, base, ld, rd, mk_strategies(t.get('strategies')), False)
         res['oracles'] = REC.dump()
         return res
     if op == 'decide':
